@@ -53,6 +53,8 @@ type Node struct {
 
 type TermTable struct {
 	tab  map[string]*Node
+	Max  int  // node budget (0 = unlimited); beyond it every new term is unknown
+	Over bool // the budget was exhausted
 	next int
 	zero *Node
 	one  *Node
@@ -96,6 +98,10 @@ func (t *TermTable) mk(n *Node) *Node {
 	}
 	if e, ok := t.tab[k]; ok {
 		return e
+	}
+	if t.Max > 0 && t.next > t.Max && n.op != opTop {
+		t.Over = true
+		return t.Top()
 	}
 	n.id = t.next
 	t.next++
@@ -400,6 +406,22 @@ type OpaqueV struct{ Why string }
 type FuncV struct{ Fn *ssa.Function }
 type NilV struct{}
 
+// ErrV: an error value whose nil-ness is a bit term (Nil = 1: the error is nil).
+type ErrV struct{ Nil *Node }
+
+// errNil: the nil-ness term of an error-like value.
+func (it *Interp) errNil(v Value) (*Node, bool) {
+	switch x := v.(type) {
+	case NilV:
+		return it.T.one, true
+	case ErrV:
+		return x.Nil, true
+	case HandleV:
+		return it.T.zero, true
+	}
+	return nil, false
+}
+
 // HandleV: an opaque non-nil object produced by a model (a cipher block, a stream, ...).
 type HandleV struct {
 	Kind string
@@ -648,6 +670,20 @@ func (it *Interp) store(st *state, p Ptr, v Value) {
 	it.Writes[p.Obj.Name+p.Path] = true
 }
 
+// storeQuiet: store (aggregates decomposed into their cells) without recording a write event.
+func (it *Interp) storeQuiet(st *state, p Ptr, v Value) {
+	if st.mem[p.Obj] == nil {
+		st.mem[p.Obj] = map[string]Value{}
+	}
+	if a, ok := v.(AggV); ok {
+		for k, x := range a.Cells {
+			st.mem[p.Obj][p.Path+k] = x
+		}
+		return
+	}
+	st.mem[p.Obj][p.Path] = v
+}
+
 // ---------------------------------------------------------------------------------------------
 // post-dominators (for if-conversion joins)
 
@@ -781,6 +817,10 @@ func (it *Interp) run(fn *ssa.Function, b, prev, until *ssa.BasicBlock, st *stat
 			return frameResult{st: st, returned: true, ret: OpaqueV{"cfg"}}
 		}
 		it.Fuel--
+		if it.T.Over {
+			it.unsup("term budget exhausted in %s (an unmodelled primitive is being expanded bit by bit)", fn.String())
+			return frameResult{st: st, returned: true, ret: OpaqueV{"budget"}}
+		}
 		if it.Fuel <= 0 {
 			it.unsup("fuel exhausted in %s (loop whose trip count is not a compile-time constant?)", fn.String())
 			return frameResult{st: st, returned: true, ret: OpaqueV{"fuel"}}
@@ -927,6 +967,18 @@ func (it *Interp) evalPhis(j *ssa.BasicBlock, prev *ssa.BasicBlock, st *state) {
 }
 
 func (it *Interp) mux(c *Node, a, b Value) Value {
+	if _, isErr := a.(ErrV); isErr {
+		if nb, ok := it.errNil(b); ok {
+			na, _ := it.errNil(a)
+			return ErrV{it.T.Mux(c, na, nb)}
+		}
+	}
+	if _, isErr := b.(ErrV); isErr {
+		if na, ok := it.errNil(a); ok {
+			nb, _ := it.errNil(b)
+			return ErrV{it.T.Mux(c, na, nb)}
+		}
+	}
 	switch x := a.(type) {
 	case nil:
 		return b
@@ -1619,6 +1671,12 @@ func (it *Interp) binop(x *ssa.BinOp, a, b Value) Value {
 					o = b
 				}
 				switch q := o.(type) {
+				case ErrV:
+					n := q.Nil
+					if x.Op == token.NEQ {
+						n = it.T.Not(n)
+					}
+					return BV{W: 1, B: []*Node{n}}
 				case Ptr, HandleV:
 					eq = 0
 				case SliceV:
@@ -1634,6 +1692,18 @@ func (it *Interp) binop(x *ssa.BinOp, a, b Value) Value {
 			if sa, ok := a.(StrV); ok {
 				if sb, ok := b.(StrV); ok && sa.Known && sb.Known {
 					eq = b2i(sa.S == sb.S)
+				} else if ok && (sa.Known || sa.Sym) && (sb.Known || sb.Sym) {
+					// strings of known but different lengths are different
+					la, lb := len(sa.S), len(sb.S)
+					if sa.Sym {
+						la = len(sa.Chars)
+					}
+					if sb.Sym {
+						lb = len(sb.Chars)
+					}
+					if la != lb {
+						eq = 0
+					}
 				}
 			}
 			if eq >= 0 {
@@ -2075,12 +2145,12 @@ func (it *Interp) appendBuiltin(st *state, args []Value, x *ssa.Call) Value {
 	n := 0
 	if !base.Nil {
 		for i := 0; i < base.Len; i++ {
-			st.mem[o][fmt.Sprintf("[%d]", n)] = it.load(st, it.sliceElemPtr(base, i), el)
+			it.storeQuiet(st, Ptr{Obj: o, Path: fmt.Sprintf("[%d]", n)}, it.load(st, it.sliceElemPtr(base, i), el))
 			n++
 		}
 	}
 	for _, v := range add {
-		st.mem[o][fmt.Sprintf("[%d]", n)] = v
+		it.storeQuiet(st, Ptr{Obj: o, Path: fmt.Sprintf("[%d]", n)}, v)
 		n++
 	}
 	return SliceV{Obj: o, Len: n}
@@ -2140,7 +2210,9 @@ func (it *Interp) stdModel(st *state, name string, c *ssa.CallCommon, args []Val
 			r.B[i] = v.B[((i-k)%v.W+v.W)%v.W]
 		}
 		return r, true
-	case "fmt.Errorf", "errors.New", "fmt.Sprintf":
+	case "fmt.Errorf", "errors.New":
+		return ErrV{it.T.zero}, true
+	case "fmt.Sprintf":
 		return OpaqueV{"formatted"}, true
 	}
 	if strings.HasPrefix(name, "(*github.com/sirupsen/logrus.Entry).") {
